@@ -2,7 +2,7 @@
 //! real `solve_ivp` / solver builders on problem families.
 use crate::common::*;
 use crate::problems::*;
-use ivp::methods::Tolerance;
+use ivp::methods::{Tolerance, DOP853, DOPRI5};
 use ivp::prelude::*;
 use std::panic::{catch_unwind, AssertUnwindSafe};
 
@@ -254,6 +254,41 @@ pub fn sym(args: &[String]) {
                 row("sy", 510000 + k, "reflect-ulp-span", Kind::Slow, method, "c13-reflect", &why, &format!("\"x0\":{},\"ulps\":{},", x0, ulps));
                 k += 1;
             }
+        }
+    }
+    // ---- stiff problems on DOPRI5 / DOP853 called directly with the stiffness detector looking at every accepted step
+    // (`stiff_test(1)`) or every few: the detector's quotient decides where the run stops with ProbablyStiff, so it has to be
+    // the same for the reflected problem.  The case count follows `cases` (40 per requested case).
+    {
+        let mut r2 = Rng(seed ^ 0x57FF);
+        for k in 0..cases * 40 {
+            let kind = k % 4;
+            let method = if k % 8 < 6 { Method::DOPRI5 } else { Method::DOP853 };
+            let lam = 10f64.powf(r2.range(1.0, 4.0));
+            let rtol = 10f64.powf(r2.range(-4.5, -0.5));
+            let atol = rtol * 10f64.powf(r2.range(-2.0, 0.0));
+            let span = r2.range(200.0, 3200.0) * 3.3 / lam * if r2.chance(0.5) { -1.0 } else { 1.0 };
+            let nst = if r2.chance(0.6) { 1 } else { 1 + r2.below(20) };
+            let y0 = [r2.range(1.0, 2.0), r2.range(0.0, 1.0)];
+            let run = |reflect: bool| {
+                let p = StiffFam { kind, lam, reflect };
+                let (a, b) = if reflect { (0.0, -span) } else { (0.0, span) };
+                let mut rec = Recorder::new();
+                rec.thetas = vec![];
+                let r = catch_unwind(AssertUnwindSafe(|| match method {
+                    Method::DOPRI5 => DOPRI5::builder().stiff_test(nst).max_steps(20000).build().solve(&p, a, &y0, b, rtol.into(), atol.into(), Some(&mut rec)).map(|s| s.status),
+                    _ => DOP853::builder().stiff_test(nst).max_steps(20000).build().solve(&p, a, &y0, b, rtol.into(), atol.into(), Some(&mut rec)).map(|s| s.status),
+                }));
+                (format!("{:?}", r), rec.cbs)
+            };
+            let (s0, c0) = run(false);
+            let (s1, c1) = run(true);
+            let mut why = String::new();
+            if s0 != s1 { why = format!("reflected run ends {}, original {}", s1, s0); }
+            else if c0.len() != c1.len() { why = format!("reflected run has {} step points, original {} (both end {})", c1.len(), c0.len(), s0); }
+            else if c0.iter().zip(c1.iter()).any(|(u, v)| u.x != -v.x || !bits_eq(&u.y, &v.y)) { why = "reflected run has different step points or states".into(); }
+            row("sy", 520000 + k, "reflect-stiffness-detector", Kind::Stiff, method, "c13-reflect", &why,
+                &format!("\"fam\":{},\"lam\":{:e},\"rtol\":{:e},\"atol\":{:e},\"span\":{:e},\"stiff_test\":{},\"y0\":[{:e},{:e}],\"status\":{:?},", kind, lam, rtol, atol, span, nst, y0[0], y0[1], s0));
         }
     }
 }
@@ -934,6 +969,23 @@ impl IVP for Relax {
                 for r in 0..n { j[(r, c)] = (f1[r] - f0[r]) / h; }
             }
         }
+    }
+}
+
+/// four small stiff problems with rate `lam` (linear with forcing, van der Pol, quadratic coupling, cubic damping);
+/// `reflect`: z'(s) = -f(-s, z)
+struct StiffFam { kind: usize, lam: f64, reflect: bool }
+impl IVP for StiffFam {
+    fn ode(&self, x: f64, y: &[f64], d: &mut [f64]) {
+        let t = if self.reflect { -x } else { x };
+        let (v, w) = match self.kind {
+            0 => (-self.lam * (y[0] - t.cos()) - t.sin(), -0.5 * self.lam * (y[1] - (0.3 * t).sin()) + 0.3 * (0.3 * t).cos()),
+            1 => (y[1], self.lam * ((1.0 - y[0] * y[0]) * y[1] - y[0])),
+            2 => (-self.lam * y[0] + y[1] * y[1], y[0] - y[1] * (1.0 + 0.1 * t.sin())),
+            _ => (-self.lam * y[0] * y[0] * y[0] + t.sin(), -0.01 * self.lam * y[1] + y[0]),
+        };
+        d[0] = if self.reflect { -v } else { v };
+        d[1] = if self.reflect { -w } else { w };
     }
 }
 
